@@ -79,6 +79,10 @@ def tags(sc, pid):
         for x in pre:
             if (x["name"], x["src"]) in rm and c["op"] == "sync" and post.get(x["name"]) == x["head"]:
                 t.add("stale-same-head")
+                # two ways a name can be taken over at the same head: the record's source is still
+                # discovered (under another name: "renamed") or it is gone ("moved")
+                postsrc = {y["src"] for y in final[-1]["pred"]["index"]}
+                t.add("stale:renamed" if x["src"] in postsrc else "stale:moved")
         if not (a["remove"] or a["index"] or a["uptodate"]):
             t.add("noop")
     if c["op"] == "sync":
@@ -106,7 +110,7 @@ def nontrivial(sc, pid):
     return "noop" not in t and not (t & {"fail:not-found"} and len(sc["steps"]) <= 2)
 
 
-PRIORITY = ["stale-same-head", "fail:dup-name", "fail:dup-src", "fail:not-found", "prune", "prune+uptodate", "reindex",
+PRIORITY = ["stale:renamed", "stale:moved", "stale-same-head", "fail:dup-name", "fail:dup-src", "fail:not-found", "prune", "prune+uptodate", "reindex",
             "removed", "by-src", "multi-sel", "root3", "two-roots", "kind:self", "kind:bare", "kind:nest", "env:foreign",
             "env:rename", "env:move", "env:commit", "env:clone", "env:del", "uptodate", "index-new"]
 
@@ -127,7 +131,7 @@ def sample(scripts, pid, n, seed):
     for p in PRIORITY:
         k = 0
         for i in order:
-            if len(chosen) >= n or k >= quota:
+            if len(chosen) >= n or k >= (3 * quota if p.startswith("stale") else quota):
                 break
             if p in tg[i]:
                 if i not in seen:
